@@ -80,3 +80,7 @@ def same(a, b):
 def setsum(s, weight):
     """sum of weight(x) over the members of the set-like s (a dict = its keys)"""
     return sum(weight(x) for x in s)
+def duplicate_free(l):
+    """concrete reading of the spec predicate duplicate_free (identity for objects, equality for scalars)"""
+    keys = [id(x) if hasattr(x, '__dict__') else x for x in l]
+    return len(set(keys)) == len(keys)
